@@ -9,6 +9,7 @@ package c07
 
 import (
 	"encoding/json"
+	"errors"
 	"fmt"
 	"strings"
 
@@ -38,7 +39,7 @@ type Config struct {
 func (c Config) String() string { b, _ := json.Marshal(c); return string(b) }
 
 type opDef struct {
-	kind int // 0 inbound E, 1 outbound E, 2 X(slot), 3 tick, 4 setLoad, 5 setCpu, 6 inbound E with batch count 3
+	kind int // 0 inbound E, 1 outbound E, 2 X(slot), 3 tick, 4 setLoad, 5 setCpu, 6 inbound E with batch count 3, 7 X(slot) after the caller traced an error
 	slot int
 	tick int64
 	val  float64
@@ -54,6 +55,8 @@ func (o opDef) String() string {
 		return "E(inbound,batch 3)"
 	case 2:
 		return fmt.Sprintf("X(%d)", o.slot)
+	case 7:
+		return fmt.Sprintf("X(%d,error)", o.slot)
 	case 3:
 		return fmt.Sprintf("tick(%d)", o.tick)
 	case 4:
@@ -63,6 +66,9 @@ func (o opDef) String() string {
 }
 
 const maxLive = 3
+
+var errBiz = errors.New("business error")
+
 const T0 = int64(1700000000250)
 
 type liveE struct {
@@ -101,7 +107,7 @@ func (s *scen) Enabled(i int) bool {
 			}
 		}
 		return false
-	case 2:
+	case 2, 7:
 		return s.live[o.slot] != nil
 	}
 	return true
@@ -200,9 +206,13 @@ func (s *scen) Apply(i int) (string, string) {
 		s.cpu = o.val
 		system_metric.SetSystemCpuUsage(o.val)
 		return "", ""
-	case 2:
+	case 2, 7:
 		l := s.live[o.slot]
 		s.live[o.slot] = nil
+		if o.kind == 7 {
+			// a request that ends with a business error is a completed request like any other
+			sentinel.TraceError(l.e, errBiz)
+		}
 		l.e.Exit()
 		if l.inbound {
 			s.infl--
@@ -319,6 +329,7 @@ func mkOps(cfg Config) []opDef {
 	for k := 0; k < maxLive; k++ {
 		ops = append(ops, opDef{kind: 2, slot: k})
 	}
+	ops = append(ops, opDef{kind: 7, slot: 0})
 	for _, d := range []int64{2, 4, 500, 1000} {
 		ops = append(ops, opDef{kind: 3, tick: d})
 	}
